@@ -23,7 +23,6 @@ package main
 
 import (
 	"bytes"
-	"errors"
 	"fmt"
 	"io"
 	"net"
@@ -128,8 +127,8 @@ func isWriteKind(k string) bool {
 	return false
 }
 
-func nodeID(i int) string   { return fmt.Sprintf("n%d", i+1) }
-func nodeAPI(i int) string  { return fmt.Sprintf("10.0.0.%d:8000", i+1) }
+func nodeID(i int) string    { return fmt.Sprintf("n%d", i+1) }
+func nodeAPI(i int) string   { return fmt.Sprintf("10.0.0.%d:8000", i+1) }
 func nodeCoord(i int) string { return fmt.Sprintf("10.0.0.%d:9100", i+1) }
 
 func genC30(r *simrt.Rand, tier string) any {
@@ -269,6 +268,17 @@ func deps() {
 		base := os.Getenv("VERIF_SCRATCH")
 		if base == "" {
 			base = "/dev/shm"
+		}
+		// the process leaves through os.Exit: sweep what earlier, dead processes left behind
+		if ents, err := os.ReadDir(base); err == nil {
+			for _, e := range ents {
+				var pid int
+				if n, _ := fmt.Sscanf(e.Name(), "verif-routing.%d", &pid); n == 1 && pid != os.Getpid() {
+					if _, err := os.Stat(fmt.Sprintf("/proc/%d", pid)); os.IsNotExist(err) {
+						os.RemoveAll(filepath.Join(base, e.Name()))
+					}
+				}
+			}
 		}
 		dir := filepath.Join(base, fmt.Sprintf("verif-routing.%d", os.Getpid()))
 		os.RemoveAll(dir)
@@ -1126,8 +1136,6 @@ func descC30(planAny any) any {
 	}
 	return map[string]any{"nodes": ns, "requests": rs, "faults": fs, "heartbeats": p.Heartbeats, "hc_interval_s": p.HCIntervalS}
 }
-
-var _ = errors.New
 
 func main() {
 	zerolog.SetGlobalLevel(zerolog.Disabled)
